@@ -101,7 +101,16 @@ def table_search(ctx, traced):
     for name, info in sorted(infos.items()):
         if not info.generic:
             continue
-        for vals in param_points(ctx, info.np, count if info.np else 1):
+        pts = param_points(ctx, info.np, count if info.np else 1)
+        if info.np:
+            # every multiple of pi/2 up to +-8 pi on each parameter in turn (special values are
+            # where "exact" shortcuts and sign conventions go wrong), the others random
+            for j in range(info.np):
+                for k in range(-16, 17):
+                    v = [ctx.rng.uniform(-3, 3) for _ in range(info.np)]
+                    v[j] = k * math.pi / 2
+                    pts.append(v)
+        for vals in pts:
             try:
                 g = info.make(list(range(info.nq)), vals)
                 m = np.asarray(g.matrix(nb))
